@@ -3,6 +3,7 @@ import ScVerif.C17.Threads
 import ScVerif.C17.SerialLemmas
 import ScVerif.C17.Adapters
 import ScVerif.C17.Pipeline
+import ScVerif.C17.ExecParams
 /-!
 Driver handler for C17.
 
@@ -248,9 +249,11 @@ def handlePull (trait : String) (n : Nat) (evs : List (Nat × List Nat)) (failAt
   | _ => none
 
 
-/-! ## the Pull pipeline: `pipe <trait> <n> <allowed> <retAfter> <par|seq> <steps>`
+/-! ## the Pull pipeline: `pipe <trait> <n> <strategy> <steps>`
 
-`par`: the members run side by side (All, Most, Any, Fast, Race); `seq`: one after the other (One).
+The strategy (`all|most|any|one|fast|race`) gives the model's parameters `(allowed, retAfter) = execParams strategy n`
+(proved against the thread-level model of exec.go: `C17_pipeline_contract_is_execute`, `C17_pipeline_contract_one`)
+and its initial state: the members run side by side (All, Most, Any, Fast, Race) or one after the other (One).
 
 `steps`: `,`-separated `<op>=<observation>`; ops: `start` (nothing), `p<i>:<k>` (device `i` reports the value
 message number `k` stands for; `p<i>:x`: it fails), `ok` / `sf` (the subscriber's parked Send returns nil /
@@ -311,8 +314,10 @@ def parsePipeStep? (val : Nat → V) (n : Nat) (s : String) : Option (Option (Pi
     pure (l, op, obs)
   | _ => none
 
-def handlePipe (trait : String) (n allowed retAfter : Nat) (seq : Bool) (steps : List String) : Option String :=
-  if retAfter > n then none else
+def handlePipe (trait : String) (n : Nat) (strat : Strategy) (steps : List String) : Option String :=
+  let allowed := (execParams strat n).1
+  let retAfter := (execParams strat n).2
+  let seq := strat == .one
   match trait with
   | "onoff" => do
     let st ← steps.mapM (parsePipeStep? onoffOf n)
@@ -360,13 +365,11 @@ def handle (toks : List String) : String :=
       if evs.any (fun ev => ev.1 ≥ n) then none
       handlePull trait n evs failAt
     r.getD "!bad-op"
-  | ["pipe", trait, n, allowed, retAfter, start, steps] =>
+  | ["pipe", trait, n, strat, steps] =>
     let r : Option String := do
       let n ← parseNat? n
-      let allowed ← parseNat? allowed
-      let retAfter ← parseNat? retAfter
-      let seq ← if start = "seq" then some true else if start = "par" then some false else none
-      handlePipe trait n allowed retAfter seq (steps.splitOn ",")
+      let strat ← parseStrategy? strat
+      handlePipe trait n strat (steps.splitOn ",")
     r.getD "!bad-op"
   | _ => "!bad-op"
 
